@@ -497,10 +497,11 @@ class Report:
         ev = dict(property_id=self.prop, tier=self.tier, seed=self.seed, level=self.level,
                   coverage=self.cov, assumptions=self.assumptions,
                   wall_s=round(time.time() - self.t0, 2), violations=len(self.violations))
-        os.makedirs(os.path.join(VERIF, "evidence"), exist_ok=True)
-        with open(os.path.join(VERIF, "evidence", self.prop + ".json"), "w") as f:
-            json.dump(ev, f, indent=1, sort_keys=True)
-            f.write("\n")
+        if getattr(self, "write_evidence", True):
+            os.makedirs(os.path.join(VERIF, "evidence"), exist_ok=True)
+            with open(os.path.join(VERIF, "evidence", self.prop + ".json"), "w") as f:
+                json.dump(ev, f, indent=1, sort_keys=True)
+                f.write("\n")
         if real:
             for p, what, found in real[:5]:
                 print("  violation: %s" % what[:300])
